@@ -215,6 +215,33 @@ class C01(CoreCheck):
     assumptions = ["objects are freed only after their unregister call returned (scenario guard)",
                    "byte-level freedom from stale accesses is observed by ASan on poisoned, individually allocated structs, not proved"]
 
+    def gen_cases(self, ctx, rng, n):
+        cases = CoreCheck.gen_cases(self, ctx, rng, n)
+        # one descriptor ready in several bands in the same iteration; the FIRST handler that runs unregisters the
+        # descriptor and frees its struct at once (fx = free + fresh poisoned allocation): the dispatcher must not look at
+        # the object again before deciding about the remaining bands; also with a second descriptor that is torn down by
+        # the first one's handler, and with re-registration of the fresh struct from the same handler
+        for _ in range(max(40, n // 6)):
+            be = rng.choice(self.backends)
+            bands = rng.choice(["io", "io", "ioe", "ioh", "ie", "oe", "ih"])
+            hs = {"i": 0, "o": 1, "e": 2}
+            have = [b for b in "ioe" if b in bands or (b == "e" and "h" in bands) or rng.random() < 0.3]
+            secs = ["B" + be, "M8"]
+            setup = ["fh0%s%d" % (b, hs[b]) for b in have] + ["fr0"]
+            two = rng.random() < 0.4
+            if two:
+                setup += ["fh1i3", "fr1", "ks1=i"]
+            setup.append("ks0=" + bands)
+            secs.append("S " + " ".join(setup))
+            first = "e" if ("e" in have and ("e" in bands or "h" in bands)) else ("i" if ("i" in have and ("i" in bands or "h" in bands)) else "o")
+            tear = rng.choice(["fu0 fx0", "fu0 fx0", "fu0 fx0 fh0i0 fr0", "fu0", "fu0 fx0 fu1 fx1" if two else "fu0 fx0"])
+            for b in have:
+                secs.append("Hf%d:%s" % (hs[b], tear if b == first else rng.choice(["-", "fu0 fx0", "-"])))
+            if two:
+                secs.append("Hf3:" + rng.choice(["fu1 fx1", "fu0 fx0 fu1 fx1", "-/fu1"]))
+            cases.append(";".join(secs))
+        return cases
+
     def nontrivial(self, case, mo):
         it = re.split(r" \| W\d+ ", mo or "")
         for part in it:
@@ -299,6 +326,36 @@ class C04(CoreCheck):
             "EINTR x clock advances; non-trivial = >= 1 timer callback and >= 2 waits; distinct = distinct scenario text")
     assumptions = ["the clock is monotone; oversleep bounds are checked only when the clock was not advanced without iv_invalidate_now "
                    "(documented obligation of the caller)"]
+
+    def gen_cases(self, ctx, rng, n):
+        cases = CoreCheck.gen_cases(self, ctx, rng, n)
+        # heap traffic with the full population of 16 timers: register many with scattered expiries, cancel interior /
+        # last / first ones, register more, then let the loop run: the wait deadline must be the earliest remaining expiry
+        # at every wait (a damaged heap makes the loop oversleep a due timer: clauses 403/404) and the callbacks come
+        # in expiry order; cancellations also from handlers
+        for _ in range(max(60, n // 5)):
+            be = rng.choice(self.backends)
+            k = rng.randint(7, 16)
+            ids = list(range(k))
+            exp = {j: rng.choice([1, 2, 3, 4, 5, 7, 10, 11, 12, 13, 20, 50]) * 100000000 + rng.choice([0, 0, 1000000, 999]) for j in ids}
+            setup = ["tr%d+%d" % (j, exp[j]) for j in ids]
+            live = list(ids)
+            for _ in range(rng.randint(2, min(6, k - 2))):
+                v = rng.choice(live)
+                live.remove(v)
+                setup.append("tu%d" % v)
+                if rng.random() < 0.5:
+                    exp[v] = rng.choice([1, 2, 6, 9, 13, 14, 30]) * 100000000
+                    setup.append("tr%d+%d" % (v, exp[v]))
+                    live.append(v)
+            secs = ["B" + be, "M%d" % rng.choice([24, 40]), "S " + " ".join(setup)]
+            for j in rng.sample(live, min(len(live), rng.randint(0, 3))):
+                others = [x for x in live if x != j]
+                if others:
+                    secs.append("Ht%d:%s" % (j, rng.choice(["tu%d" % rng.choice(others), "tu%d tu%d" % (rng.choice(others), rng.choice(others)),
+                                                           "tu%d tr%d+%d" % (rng.choice(others), rng.choice(others), rng.choice([1, 3, 8]) * 100000000)])))
+            cases.append(";".join(secs))
+        return cases
 
     def nontrivial(self, case, mo):
         return self.count(mo, r"\| Ct") >= 1 and self.count(mo, r"\| W\d+ ") >= 2
